@@ -136,7 +136,16 @@ def c03c(ctx):
         st = enclosing(g.stmt[r], ast.If)
         idx = sorted({const_value(x.slice) for x in ast.walk(st.test) if isinstance(x, ast.Subscript) and isinstance(const_value(x.slice), int)})
         ok = ok and idx == [1, 3] and 'delta' in unparse(st.test)
-    ctx.check(ok, 'TileGrid.supports_access_with_origin:top-bottom-only', 'access from another origin is refused only when top/bottom (indices 1, 3) of a level differ from the grid bbox', so)
+    # two-sided: |grid edge - level edge| > delta (abs), or both one-sided comparisons per edge
+    for r in falses:
+        st = enclosing(g.stmt[r], ast.If)
+        for k in (1, 3):
+            cmps = [c for c in ast.walk(st.test) if isinstance(c, ast.Compare) and
+                    any(isinstance(x, ast.Subscript) and const_value(x.slice) == k for x in ast.walk(c))]
+            two_sided = any(contains(c, lambda x: is_call(x, 'abs')) for c in cmps) or len(cmps) >= 2
+            ok = ok and two_sided
+    ctx.check(ok, 'TileGrid.supports_access_with_origin:top-bottom-only', 'access from another origin is refused when top or bottom (indices 1, 3) of a level differ from the grid bbox in either direction (two-sided tolerance)', so,
+              fail='the flip compatibility test is one-sided (or uses other components): a grid whose rows stop short of the bbox is offered with the other origin, flipped rows are shifted')
     t1 = g.find_stmts(lambda s: isinstance(s, ast.Return) and const_value(s.value, 0) is True)
     ok = any(g.guarded(r, lambda at: at.op == '==' and 'origin_from_string' in at.text and 'self.origin' in at.text, True) for r in t1)
     ctx.check(ok, 'TileGrid.supports_access_with_origin:same-origin', 'the grid\'s own origin is always supported', so)
